@@ -41,6 +41,13 @@ def agree(case, impl, model):
         dens = [int(x) for x in m.group(2).split(",")] if m.group(2) else []
         if len(nums) != len(vals):
             return False
+        # the sequence begins at the start value and, when the endpoint is requested, ends at the stop value — exactly
+        # (both are binary fractions in every case)
+        if len(vals) >= 2:
+            if exact(vals[0]) != Fraction(int(t[1][1:]), int(t[2][1:])):
+                return False
+            if t[6] == "z1" and exact(vals[-1]) != Fraction(int(t[3][1:]), int(t[4][1:])):
+                return False
         scale = max([abs(Fraction(n, d)) for n, d in zip(nums, dens)] + [Fraction(1)])
         for v, n, d in zip(vals, nums, dens):
             if v != v or abs(exact(v) - Fraction(n, d)) > scale * Fraction(1, 2 ** 40):
@@ -156,6 +163,9 @@ def gen(seed, tier):
             g1, g2 = rng.choice([1, 2, 5, 10, 1000]), rng.choice([1, 3, 8, 100, 4096])
             out.append(f"geomspace z{g1} z1 z{g2} z1 z{num} z{ep}")
     out.append("linspace z0 z1 z1 z1 z0 z1")
+    for (sn, sd, en, ed) in ((0, 1, 1, 1), (-1, 1, 1, 1), (5, 2, -5, 2), (-3, 1, 10, 1), (0, 1, 7, 8), (-5, 1, 5, 1), (1, 8, 100, 1)):
+        for num in range(2, 61):
+            out.append(f"linspace z{sn} z{sd} z{en} z{ed} z{num} z1")
     out.append("geomspace z0 z1 z5 z1 z5 z1")
     out.append("geomspace z2 z1 z0 z1 z5 z1")
     for _ in range(200 if tier == "quick" else 2000):
